@@ -6,7 +6,6 @@ import (
 	"strconv"
 	"strings"
 	"unicode/utf16"
-	"unicode/utf8"
 )
 
 // String
@@ -44,22 +43,25 @@ func builtinStringFromCharCode(call FunctionCall) Value {
 
 func builtinStringCharAt(call FunctionCall) Value {
 	checkObjectCoercible(call.runtime, call.This)
-	idx := int(call.Argument(0).number().int64)
-	chr := stringAt(newStringObject(call.This.string()), idx)
-	if chr == utf8.RuneError {
+	// ToString(this) comes before ToInteger(pos) (15.5.4.4 steps 2-3).
+	str := newStringObject(call.This.string())
+	idx := call.Argument(0).number().int64
+	// Compare against the length: U+FFFD is a valid character, not an out-of-range marker.
+	if idx < 0 || idx >= int64(str.Length()) {
 		return stringValue("")
 	}
-	return stringValue(string(chr))
+	return stringValue(string(str.At(int(idx))))
 }
 
 func builtinStringCharCodeAt(call FunctionCall) Value {
 	checkObjectCoercible(call.runtime, call.This)
-	idx := int(call.Argument(0).number().int64)
-	chr := stringAt(newStringObject(call.This.string()), idx)
-	if chr == utf8.RuneError {
+	// ToString(this) comes before ToInteger(pos) (15.5.4.5 steps 2-3).
+	str := newStringObject(call.This.string())
+	idx := call.Argument(0).number().int64
+	if idx < 0 || idx >= int64(str.Length()) {
 		return NaNValue()
 	}
-	return uint16Value(uint16(chr))
+	return uint16Value(uint16(str.At(int(idx))))
 }
 
 func builtinStringConcat(call FunctionCall) Value {
